@@ -763,6 +763,8 @@ class Interp:
             return list(itv) if len(itv) <= 64 else None
         if isinstance(itv, GenList):
             return itv.elem
+        if isinstance(itv, Arr) and itv.ndim >= 1 and itv.dims[0] is None and itv.mask is None:
+            return [Arr(itv.dims[1:], itv.poly, None, itv.unit)]          # an unlabelled axis has one position
         if isinstance(itv, Arr) and itv.ndim >= 1 and itv.dims[0] and itv.mask is None and self.axis_len.get(itv.dims[0], 99) <= 16:
             # the configuration fixes the length of this axis: one iteration per position
             return [Arr(itv.dims[1:], alg.index_at(itv.poly, itv.dims[0], num(k_)), None, itv.unit) for k_ in range(self.axis_len[itv.dims[0]])]
@@ -1178,6 +1180,14 @@ class Interp:
                     ok = True
                 elif isinstance(st, ast.AugAssign) and isinstance(st.target, ast.Name) and st.target.id in env:
                     ok = True
+                elif isinstance(st, ast.Expr) and isinstance(st.value, ast.Call) and isinstance(st.value.func, ast.Attribute) and st.value.func.attr in ('append', 'extend', 'update', 'setdefault', 'insert') \
+                        and (lambda r_: isinstance(r_, ast.Name) and r_.id in env)(_root_of(st.value.func.value)):
+                    # TABLE['k'].append(v) / TABLE.update(...): a module-level container filled statement by statement
+                    try:
+                        self.stmt(st, env, mod)
+                    except Exception:
+                        env[_root_of(st.value.func.value).id] = Unk('module-level container filled by an unmodelled call', st)
+                    continue
                 if ok:
                     try:
                         self.stmt(st, env, mod)
@@ -1396,6 +1406,8 @@ class Interp:
             return Unk('string arithmetic', node)
         if isinstance(a, list) and isinstance(b, list) and isinstance(op, ast.Add):
             return a + b
+        if isinstance(op, ast.Mult) and (isinstance(a, list) and isinstance(b, int) or isinstance(a, int) and isinstance(b, list)) and not isinstance(a, bool) and not isinstance(b, bool):
+            return a * b if (b if isinstance(b, int) else a) <= 64 else Unk('list repeated many times', node)
         if isinstance(a, tuple) and isinstance(b, tuple) and isinstance(op, ast.Add):
             return a + b
         if isinstance(a, (list, tuple)) and isinstance(b, (Marker, Arr)) and isinstance(op, ast.Mult):
@@ -1759,6 +1771,8 @@ class Interp:
             k = self.expr(e.slice, env, mod)
             if isinstance(k, int) and -len(v.dims) <= k < len(v.dims):
                 lab = v.dims[k]
+                if lab in self.axis_len:
+                    return self.axis_len[lab]          # the configuration being analysed fixes the length of this axis
                 return Arr((), alg.count(lab), unit=num(1)) if lab else 1
             return Unk('shape index', e)
         if isinstance(v, _SelIdx):
@@ -2379,6 +2393,15 @@ class Interp:
                     r_.tiled = True            # the whole of x, k times over:  out[j*n + i] == x[i]
                     return r_
                 return Unk('np.tile', e)
+            if last in ('repeat', 'tile') and len(args) == 2 and 'axis' not in kw and isinstance(args[1], int) and not isinstance(args[1], bool) and 1 <= args[1] <= 16 \
+                    and isinstance(self._as_arr(args[0]), Arr) and self._as_arr(args[0]).mask is None:
+                # a concrete number of copies: a fresh axis of that many positions
+                self._n_lists = getattr(self, '_n_lists', 0) + 1
+                lab_ = 'rep#%d' % self._n_lists
+                self.axis_len[lab_] = args[1]
+                r_ = _Repeat(self._as_arr(args[0]), lab_)
+                r_.tiled = last == 'tile'
+                return r_
             if last == 'repeat' and len(args) == 2 and 'axis' not in kw:
                 x, k = self._as_arr(args[0]), self._as_arr(args[1])
                 if isinstance(x, Arr) and x.mask is None and isinstance(k, Arr) and k.ndim == 0 and _len_label(k.poly):
@@ -2388,6 +2411,19 @@ class Interp:
                 # np.repeat(x, k, axis=ax) along an axis of length one: out[..., j, ...] == x[..., 0, ...] for the k positions j
                 x, k = self._as_arr(args[0]), self._as_arr(args[1])
                 ax_ = kw.get('axis', args[2] if len(args) > 2 else None)
+                if isinstance(x, Arr) and x.mask is None and isinstance(args[1], int) and not isinstance(args[1], bool) and 1 <= args[1] <= 16 and -x.ndim <= ax_ < x.ndim:
+                    # a concrete number of copies along an axis of one position: a fresh axis of that many positions
+                    ax_ %= x.ndim
+                    lab_ = x.dims[ax_]
+                    if lab_ is None or self.axis_len.get(lab_) == 1:
+                        d_ = list(x.dims)
+                        if args[1] == 1:
+                            d_[ax_] = None
+                        else:
+                            self._n_lists = getattr(self, '_n_lists', 0) + 1
+                            d_[ax_] = 'rep#%d' % self._n_lists
+                            self.axis_len[d_[ax_]] = args[1]
+                        return x.with_(dims=tuple(d_), poly=x.poly if lab_ is None else alg.mk_fn('at', B(lab_, x.poly), P(Poly())))
                 if isinstance(x, Arr) and x.mask is None and isinstance(k, Arr) and k.ndim == 0 and _len_label(k.poly) and -x.ndim <= ax_ < x.ndim:
                     ax_ %= x.ndim
                     lab_, new_ = x.dims[ax_], _len_label(k.poly)
@@ -2704,6 +2740,12 @@ class Interp:
             if name == 'reshape':
                 sh = list(args[0]) if len(args) == 1 and isinstance(args[0], (tuple, list)) else list(args)
                 labs = [(_len_label(v.poly) if isinstance(v, Arr) and v.ndim == 0 else None) for v in map(self._as_arr, sh)]
+                for k_, v_ in enumerate(sh):
+                    # a concrete extent names the axis that has that many positions: the copies' axis, or the (known) axis of x
+                    if labs[k_] is None and isinstance(v_, int) and not isinstance(v_, bool):
+                        cands_ = [l_ for l_ in (recv.label, recv.x.dims[0] if recv.x.ndim else None) if l_ is not None and self.axis_len.get(l_) == v_ and l_ not in labs]
+                        if len(cands_) == 1:
+                            labs[k_] = cands_[0]
                 x = recv.x
                 if getattr(recv, 'tiled', False) and len(labs) == 2 and None not in labs and x.ndim == 1 and x.dims[0]:
                     # np.tile(x, k).reshape(k, n) has x on every row; .reshape(n, k) cuts the k copies laid end to end into rows of k: row i is not x[i] repeated
@@ -2771,6 +2813,12 @@ class Interp:
                 return recv.with_(dims=tuple(recv.dims[k_] for k_ in perm_))
             if name in ('clip', 'take'):
                 return self.libcall('numpy.' + name, [recv] + args, kw, e, mod)          # x.clip(lo, hi) is np.clip(x, lo, hi)
+            if name == 'sort' and not args and not kw and recv.ndim == 1 and recv.dims[0] and recv.mask is None:
+                # x.sort(): the array is rewritten in increasing order, seen through every name bound to it
+                srt_ = recv.with_(poly=alg.index_at(recv.poly, recv.dims[0], alg.array_fn('argsort', recv.dims[0], recv.poly)))
+                for fr_ in self.frames:
+                    _replace_aliases(fr_, recv, srt_)
+                return None
             if name == 'strip' and not args and not kw:
                 return recv.with_(poly=alg.mk_fn('strip', P(recv.poly)))          # an element of an array of names, with surrounding blanks removed
             if name == 'searchsorted':
@@ -3235,6 +3283,12 @@ def _is_boolean(p):
             if a[0] != 'ind' and not (a[0] == 'fn' and a[1] in ('any', 'all', 'loosely_close')):
                 return False
     return True
+
+
+def _root_of(e):
+    while isinstance(e, (ast.Subscript, ast.Attribute)):
+        e = e.value
+    return e
 
 
 def _may_be_infinite(p):
